@@ -97,7 +97,7 @@ Qed.
 Definition eqp (s s' : state) : Prop :=
   st_kind s' = st_kind s /\ st_facts s' = st_facts s /\ st_tindex s' = st_tindex s /\
   st_store s' = st_store s /\ st_hooks s' = st_hooks s /\ st_calls s' = st_calls s /\
-  st_fail s' = st_fail s /\ st_amb s' = st_amb s.
+  st_fail s' = st_fail s /\ st_amb s' = st_amb s /\ st_pending s' = st_pending s.
 
 Lemma eqp_refl s : eqp s s.
 Proof. unfold eqp; tauto. Qed.
@@ -126,6 +126,9 @@ Lemma P_store_call s : P s -> P (fst (store_call s)).
 Proof. apply P_ext; reflexivity. Qed.
 
 Lemma P_set_amb s a : P s -> P (set_amb s a).
+Proof. apply P_ext; reflexivity. Qed.
+
+Lemma P_set_pending s p : P s -> P (set_pending s p).
 Proof. apply P_ext; reflexivity. Qed.
 
 Lemma P_set_fail s f : P s -> P (set_fail s f).
@@ -230,29 +233,26 @@ Section RemInv.
   Variable rem_rec : state -> string -> Z -> state * outcome bool.
   Hypothesis rem_rec_P : forall s id now, P s -> P (fst (rem_rec s id now)).
 
-  Lemma expire_P s id fact now : P s -> P (fst (fst (expire rem_rec s id fact now))).
+  Lemma expire_P s id fact now : P s -> P (fst (expire s id fact now)).
   Proof.
     intros HP. unfold expire. destruct (fact_expired fact now); [|exact HP].
-    pose proof (rem_rec_P s id now HP) as H.
-    destruct (rem_rec s id now) as [s' o]. cbn [fst] in *.
-    destruct (S (count_facts s') <? count_facts s)%nat; [apply P_set_amb|]; exact H.
+    cbn [fst]. apply P_set_pending; exact HP.
   Qed.
 
   Lemma search_ids_P ids : forall s pattern now acc,
-    P s -> P (fst (search_ids rem_rec s ids pattern now acc)).
+    P s -> P (fst (search_ids s ids pattern now acc)).
   Proof.
     induction ids as [|id r IH]; intros s pattern now acc HP; cbn [search_ids].
     - exact HP.
     - destruct (alookup id (st_facts s)) as [fact|]; [|apply IH; exact HP].
       pose proof (expire_P s id fact now HP) as H.
-      destruct (expire rem_rec s id fact now) as [[s1 expired] err]. cbn [fst] in H.
-      destruct (expire_stops (st_kind s) err); [exact H|].
+      destruct (expire s id fact now) as [s1 expired]. cbn [fst] in H.
       destruct expired; [apply IH; exact H|].
       destruct (core_match pattern fact []) as [[|b bss]|e|w|]; try exact H; apply IH; exact H.
   Qed.
 
   Lemma search_state_P s pattern now :
-    P s -> P (fst (search_state rem_rec s pattern now)).
+    P s -> P (fst (search_state s pattern now)).
   Proof.
     intros HP. unfold search_state. destruct (st_kind s).
     - destruct (ti_search (st_tindex s) (extract_terms pattern)); try exact HP.
@@ -276,7 +276,7 @@ Section RemInv.
   Proof.
     intros HP. unfold delete_dependencies.
     pose proof (search_state_P s (dw_pattern id) now HP) as H.
-    destruct (search_state rem_rec s (dw_pattern id) now) as [s1 [found|e|w|]]; cbn [fst] in *; try exact H.
+    destruct (search_state s (dw_pattern id) now) as [s1 [found|e|w|]]; cbn [fst] in *; try exact H.
     apply rem_list_P; exact H.
   Qed.
 
@@ -321,20 +321,80 @@ Proof. apply rem_fuel_P. Qed.
 Lemma st_rem_rec_P s id now : P s -> P (fst (st_rem_rec s id now)).
 Proof. apply rem_fuel_P. Qed.
 
+(** * The purge: any invariant kept by the removals and blind to the list of
+    noted ids is kept by the purge, hence by the public entry points *)
+Section PurgeInv.
+  Variable Q : state -> Prop.
+  Hypothesis Q_pending : forall s p, Q s -> Q (set_pending s p).
+  Hypothesis Q_rem : forall s id now, Q s -> Q (fst (st_rem s id now)).
+
+  Lemma purge_ids_inv ids : forall s now, Q s -> Q (fst (purge_ids s ids now)).
+  Proof.
+    induction ids as [|id r IH]; intros s now HQ; cbn [purge_ids]; [exact HQ|].
+    destruct (alookup id (st_facts s)) as [fact|]; [|apply IH; exact HQ].
+    destruct (fact_expired fact now); [|apply IH; exact HQ].
+    pose proof (Q_rem s id now HQ) as H.
+    destruct (st_rem s id now) as [s1 [b|e|w|]]; cbn [fst] in *; try exact H; apply IH; exact H.
+  Qed.
+
+  Lemma purge_fuel_inv fuel : forall s now, Q s -> Q (fst (purge_fuel fuel s now)).
+  Proof.
+    induction fuel as [|f IH]; intros s now HQ; cbn [purge_fuel].
+    - destruct (st_pending s); exact HQ.
+    - destruct (st_pending s) as [|i ids] eqn:Ep; [exact HQ|].
+      pose proof (purge_ids_inv (i :: ids) (set_pending s []) now (Q_pending s [] HQ)) as H.
+      destruct (purge_ids (set_pending s []) (i :: ids) now) as [s1 [u|e|w|]]; cbn [fst] in *; try exact H.
+      apply IH; exact H.
+  Qed.
+
+  Lemma purge_inv s now : Q s -> Q (fst (purge s now)).
+  Proof. apply purge_fuel_inv. Qed.
+
+  Lemma with_purge_inv {A} (r : state * outcome A) now : Q (fst r) -> Q (fst (with_purge r now)).
+  Proof. intros H. unfold with_purge. cbn [fst]. apply purge_inv; exact H. Qed.
+End PurgeInv.
+
+Lemma fst_with_purge {A} (r : state * outcome A) now : fst (with_purge r now) = fst (purge (fst r) now).
+Proof. reflexivity. Qed.
+
+(** nothing noted: the purge does nothing *)
+Lemma purge_nil s now : st_pending s = [] -> purge s now = (s, Ok tt).
+Proof. intros H. unfold purge, purge_rounds. cbn [purge_fuel]. rewrite H. reflexivity. Qed.
+
+Lemma with_purge_nil {A} (s : state) (o : outcome A) now :
+  st_pending s = [] -> with_purge (s, o) now = (s, o).
+Proof.
+  intros H. unfold with_purge. cbn [fst snd]. rewrite (purge_nil s now H). cbn [fst snd].
+  destruct o; reflexivity.
+Qed.
+
+Lemma expire_false s id fact now : fact_expired fact now = false -> expire s id fact now = (s, false).
+Proof. intros H. unfold expire. rewrite H. reflexivity. Qed.
+
+Lemma expire_true s id fact now :
+  fact_expired fact now = true -> expire s id fact now = (note_expired s id, true).
+Proof. intros H. unfold expire. rewrite H. reflexivity. Qed.
+
+Lemma P_with_purge {A} (r : state * outcome A) now : P (fst r) -> P (fst (with_purge r now)).
+Proof. apply (with_purge_inv P P_set_pending st_rem_P). Qed.
+
 Lemma st_search_P s p now : P s -> P (fst (st_search s p now)).
-Proof. apply search_state_P. apply st_rem_rec_P. Qed.
+Proof. intros HP. unfold st_search. apply P_with_purge. apply search_state_P; exact HP. Qed.
+
+Lemma get_body_P s id now : P s -> P (fst (get_body s id now)).
+Proof.
+  intros HP. unfold get_body. destruct (alookup id (st_facts s)) as [fact|]; [|exact HP].
+  pose proof (expire_P s id fact now HP) as H.
+  destruct (expire s id fact now) as [s1 [|]]; exact H.
+Qed.
 
 Lemma st_get_P s id now : P s -> P (fst (st_get s id now)).
-Proof.
-  intros HP. unfold st_get. destruct (alookup id (st_facts s)) as [fact|]; [|exact HP].
-  destruct (fact_expired fact now); [|exact HP].
-  pose proof (st_rem_P s id now HP) as H.
-  destruct (st_rem s id now) as [s1 [b|e|w|]]; exact H.
-Qed.
+Proof. intros HP. unfold st_get. apply P_with_purge. apply get_body_P; exact HP. Qed.
 
 Lemma st_Rem_P s id now : P s -> P (fst (st_Rem s id now)).
 Proof.
-  intros HP. unfold st_Rem. destruct (st_hooks s); [|apply st_rem_P; exact HP].
+  intros HP. unfold st_Rem. apply P_with_purge.
+  destruct (st_hooks s); [|apply st_rem_P; exact HP].
   pose proof (st_get_P s id now HP) as H.
   destruct (st_get s id now) as [s1 [b|e|w|]]; cbn [fst] in *; try exact H.
   apply st_rem_P; exact H.
@@ -345,21 +405,24 @@ Proof.
   induction ids as [|id r IH]; intros s now acc HP; cbn [find_ids_idx].
   - exact HP.
   - destruct (alookup id (st_facts s)) as [fact|]; [|exact HP].
-    pose proof (expire_P st_rem_rec st_rem_rec_P s id fact now HP) as H.
-    destruct (expire st_rem_rec s id fact now) as [[s1 expired] err]. cbn [fst] in H.
+    pose proof (expire_P s id fact now HP) as H.
+    destruct (expire s id fact now) as [s1 expired]. cbn [fst] in H.
     destruct expired; [apply IH; exact H|].
     destruct (extract_rule fact true) as [[body|]|e|w|]; try exact H. apply IH; exact H.
+Qed.
+
+Lemma do_find_rules_P s ev now : P s -> P (fst (do_find_rules s ev now)).
+Proof.
+  intros HP. unfold do_find_rules. apply P_with_purge.
+  assert (Hk : st_kind s = Indexed) by apply HP. rewrite Hk.
+  destruct (pi_search (st_pindex s) ev); try exact HP. apply find_ids_idx_P; exact HP.
 Qed.
 
 Lemma st_find_rules_P s ev now : P s -> P (fst (st_find_rules s ev now)).
 Proof.
   intros HP. unfold st_find_rules.
-  assert (Hk : st_kind s = Indexed) by apply HP. rewrite Hk.
-  match goal with
-  | |- P (fst (let '(a, b) := ?X in _)) => assert (H : P (fst X)); [|destruct X as [s1 res]]
-  end.
-  { destruct (pi_search (st_pindex s) ev); try exact HP. apply find_ids_idx_P; exact HP. }
-  cbn [fst] in H.
+  pose proof (do_find_rules_P s ev now HP) as H.
+  destruct (do_find_rules s ev now) as [s1 res]. cbn [fst] in H.
   destruct res as [l|e|w|]; exact H.
 Qed.
 
@@ -479,11 +542,11 @@ Qed.
 
 (** * The candidate loop when nothing has expired *)
 
-Lemma search_ids_noexp rr pattern now ids : forall s acc,
+Lemma search_ids_noexp pattern now ids : forall s acc,
   no_expired s now ->
   (forall id fact, alookup id (st_facts s) = Some fact ->
                    exists bss, core_match pattern fact [] = Ok bss) ->
-  exists res, search_ids rr s ids pattern now acc = (s, Ok res) /\
+  exists res, search_ids s ids pattern now acc = (s, Ok res) /\
     forall i b, In (i, b) res <->
       In (i, b) acc \/
       (In i ids /\ b <> [] /\
@@ -493,7 +556,7 @@ Proof.
   - exists (rev acc). split; [reflexivity|]. intros i b. rewrite <- in_rev.
     split; [intros H; left; exact H|]. intros [H|[[] _]]; exact H.
   - destruct (alookup id (st_facts s)) as [fact|] eqn:El.
-    + assert (Hx : expire rr s id fact now = (s, false, None)).
+    + assert (Hx : expire s id fact now = (s, false)).
       { unfold expire. rewrite (Hexp id fact El). reflexivity. }
       rewrite Hx. destruct (Hok id fact El) as (bss & Hm). rewrite Hm.
       destruct bss as [|b0 bss].
@@ -526,18 +589,18 @@ Qed.
 Lemma search_exact_main : search_exact_statement.
 Proof.
   unfold search_exact_statement.
-  intros s pattern now Hk Hwf Hsup Hexp Hterms Hok Hsub.
+  intros s pattern now Hk Hwf Hsup Hexp Hpend Hterms Hok Hsub.
   unfold st_search, search_state. rewrite Hk.
   destruct (ti_search_spec (st_tindex s) (extract_terms pattern) Hterms) as (ids & Hts & Hids).
   rewrite Hts.
-  destruct (search_ids_noexp st_rem_rec pattern now ids s [] Hexp Hok) as (res1 & Hr1 & Hin1).
+  destruct (search_ids_noexp pattern now ids s [] Hexp Hok) as (res1 & Hr1 & Hin1).
   assert (Hexp' : no_expired (as_linear s) now) by exact Hexp.
   assert (Hok' : forall id fact, alookup id (st_facts (as_linear s)) = Some fact ->
                                  exists bss, core_match pattern fact [] = Ok bss) by exact Hok.
-  destruct (search_ids_noexp st_rem_rec pattern now (map fst (st_facts s)) (as_linear s) [] Hexp' Hok')
+  destruct (search_ids_noexp pattern now (map fst (st_facts s)) (as_linear s) [] Hexp' Hok')
     as (res2 & Hr2 & Hin2).
-  exists (Ok res1), (Ok res2). split; [exact Hr1|]. split.
-  - cbn [st_kind as_linear st_facts]. exact Hr2.
+  exists (Ok res1), (Ok res2). split; [rewrite Hr1; apply with_purge_nil; exact Hpend|]. split.
+  - cbn [st_kind as_linear st_facts]. rewrite Hr2. apply with_purge_nil. exact Hpend.
   - intros [i b]. rewrite Hin1, Hin2. cbn [In st_facts as_linear].
     split; intros [[]|(H1 & H2 & fact & H3 & H4)]; right; (split; [|split; [exact H2|exists fact; split; assumption]]).
     + eapply alookup_In_keys; exact H3.
@@ -548,9 +611,9 @@ Qed.
 
 Lemma get_exact_main : get_exact_statement.
 Proof.
-  unfold get_exact_statement. intros s id now _. unfold st_get.
-  destruct (alookup id (st_facts s)) as [fact|]; [|reflexivity].
-  intros ->. reflexivity.
+  unfold get_exact_statement. intros s id now _ Hpend. unfold st_get, get_body.
+  destruct (alookup id (st_facts s)) as [fact|]; [|apply with_purge_nil; exact Hpend].
+  intros Hf. rewrite (expire_false s id fact now Hf). apply with_purge_nil; exact Hpend.
 Qed.
 
 (** C02, part 3: terms of a pattern that lays over a fact; add. *)
